@@ -232,14 +232,32 @@ func vh_C12_sign() {
 //   * VerifyBatchOnly is false for an empty batch and for a batch with an entry flagged at Add.
 // Not claimed (probabilistic): that the random linear combination accepts only valid batches.
 //
-//verif:ob prop=C12,C09 name=sr25519_BatchVerifier mode=bv tags=purego use=gapi,strobe.kf_keccak split=n:0..2;k0:0..2;k1:0..2;which:0..1 allowpanic=delinearization|batch.verification.scalar
+//verif:ob prop=C12,C09 name=sr25519_BatchVerifier mode=bv tags=purego use=gapi,strobe.kf_keccak split=n:0..2;k0:0..2;k1:0..2;which:0..1;prev:0..1 allowpanic=delinearization|batch.verification.scalar
 func vh_C12_batch() {
 	n := verif.Case("n")
 	kinds := []int{verif.Case("k0"), verif.Case("k1")}
-	if (n < 2 && kinds[1] != 0) || (n < 1 && kinds[0] != 0) {
+	prev := verif.Case("prev")
+	if (n < 2 && kinds[1] != 0) || (n < 1 && kinds[0] != 0) || (prev == 1 && (n == 0 || verif.Case("which") == 0 || kinds[0] != 0 || kinds[1] != 0)) {
+		verif.SkipRun()
 		return
 	}
 	bv := NewBatchVerifier()
+	randName := "rand#1"
+	if prev == 1 {
+		// the verifier is REUSED: an earlier well-formed batch went through VerifyBatchOnly, then Reset
+		var pkb [32]byte
+		verif.AnyBytes("pkP", pkb[:])
+		var sgb [64]byte
+		verif.AnyBytes("sigP", sgb[:])
+		pk, sig := &PublicKey{}, &Signature{}
+		errP := pk.UnmarshalBinary(pkb[:])
+		errS := sig.UnmarshalBinary(sgb[:])
+		verif.Assume(errP == nil && errS == nil && curve.RDecodes(sig.rCompressed[:]))
+		bv.Add(pk, NewSigningContext([]byte("ctx")).NewTranscriptBytes([]byte("p")), sig)
+		_ = bv.VerifyBatchOnly(nil)
+		bv.Reset()
+		randName = "rand#2"
+	}
 	single := make([]bool, n)
 	flagged := false
 	var pks []*PublicKey
@@ -296,7 +314,7 @@ func vh_C12_batch() {
 			vr.AppendMessage("", w[:])
 		}
 		ent := make([]byte, 32)
-		verif.AnyBytes("rand#1", ent)
+		verif.AnyBytes(randName, ent)
 		zr, _ := vr.BuildRng().Finalize(&fixedReader{ent})
 		zero := verif.BVHex("0", 256)
 		bco := zero
